@@ -16,11 +16,14 @@ def _dense(t):
 
 def loop_buffers(ctx, rule='loop-buffer-refreshed-before-read', scope=None, min_instances=0):
     n = 0
-    for fn in ctx.F.concrete():
-        if not fn.cfg or not fn.qname.startswith('Spectra::'):
-            continue
-        if scope is not None and not scope(fn):
-            continue
+    ctl = 0
+    for fn in list(ctx.C.functions) + list(ctx.F.concrete()):
+        control = fn.qname.startswith('SpectraControl::stale_buffer')
+        if not control:
+            if not fn.cfg or not fn.qname.startswith('Spectra::'):
+                continue
+            if scope is not None and not scope(fn):
+                continue
         loops = [x for x in fn.walk() if x['k'] in ('ForStmt', 'WhileStmt', 'DoStmt')]
         if not loops:
             continue
@@ -74,6 +77,9 @@ def loop_buffers(ctx, rule='loop-buffer-refreshed-before-read', scope=None, min_
                     if hit is not None:
                         bad = a
                         break
+                if control:
+                    ctl += 1 if bad is not None else 0
+                    continue
                 n += 1
                 name = loc['name']
                 key = (fn.tmpl_qname if hasattr(fn, 'tmpl_qname') else fn.qname, name)
@@ -85,6 +91,8 @@ def loop_buffers(ctx, rule='loop-buffer-refreshed-before-read', scope=None, min_
                           'buffer %s is overwritten as a whole on every path from the start of an iteration to each of its %d reads in the loop' % (name, len(reads))
                           if bad is None else
                           'buffer %s is refreshed inside the loop only on some paths: `%s` can read the value left by an earlier iteration' % (name, fn.s(bad.node)[:70]))
+    if ctl < 1:
+        raise AnalysisBroken('loop-buffer rule: positive control not matched')
     if n < min_instances:
         raise AnalysisBroken('only %d loop-carried buffers analysed (expected >= %d)' % (n, min_instances))
     return n
